@@ -38,68 +38,88 @@ Definition dim_ok (d : dim_in) (x : Z) : Prop :=
 Definition dim_text_ok (d : dim_in) (x : Z) : Prop := x <= Z.max 0 (upper_text d).
 
 (* 0 ok; 1 negative; 2 above capacity - margin - system - high-priority; 3 above the percentage
-   cap; 4 only the bound of the property text (system usage under the request policy) fails *)
-Definition dim_code (d : dim_in) (x : Z) : Z :=
+   cap; 4 (strict only) the bound of the property text fails: system usage above the reservation
+   is not charged under the request policy *)
+Definition dim_code (strict : bool) (d : dim_in) (x : Z) : Z :=
   if x <? 0 then 1
   else if Z.max 0 (upper d) <? x then 2
   else if match d_thr d with Some c => c <? x | None => false end then 3
-  else if Z.max 0 (upper_text d) <? x then 4
+  else if strict && (Z.max 0 (upper_text d) <? x) then 4
   else 0.
+Definition dim_spec (strict : bool) (d : dim_in) (x : Z) : Prop :=
+  dim_ok d x /\ (strict = true -> dim_text_ok d x).
 
 (* ---------- the whole observable of the batch plugin ---------- *)
-Fixpoint zones_code (b : binput) (n i : nat) (zs : list (Z * Z)) (obs : list Z) : Z :=
+Fixpoint zones_code (strict : bool) (b : binput) (n i : nat) (zs : list (Z * Z)) (obs : list Z) : Z :=
   match zs, obs with
   | [], [] => 0
   | z :: t, c :: m :: obs' =>
-      let cc := dim_code (zone_cpu b n i z) c in
-      let cm := dim_code (zone_mem b n i z) m in
+      let cc := dim_code strict (zone_cpu b n i z) c in
+      let cm := dim_code strict (zone_mem b n i z) m in
       if negb (cc =? 0) then 20 + cc else if negb (cm =? 0) then 20 + cm
-      else zones_code b n (S i) t obs'
+      else zones_code strict b n (S i) t obs'
   | _, _ => 9
   end.
 
 Definition stale (b : binput) : bool := is_degraded (s_degrade (b_s b)) (b_age b).
 
 (* the published amount may be absent (-1): withdrawing is always safe *)
-Definition pub_code (d : dim_in) (x : Z) : Z :=
-  if x =? -1 then 0 else let c := dim_code d x in if c =? 0 then 0 else 30 + c.
+Definition pub_code (strict : bool) (d : dim_in) (x : Z) : Z :=
+  if x =? -1 then 0 else let c := dim_code strict d x in if c =? 0 then 0 else 30 + c.
 
-Definition batch_code (b : binput) (obs : list Z) : Z :=
-  match obs with
-  | [1; -1; -1] => 0                               (* withdrawn: always safe *)
-  | 0 :: pc :: pm :: c :: m :: nz :: zobs =>
-      if stale b then 10                           (* stale metrics must withdraw the resource *)
-      else if negb (dim_code (node_cpu b) c =? 0) then dim_code (node_cpu b) c
-      else if negb (dim_code (node_mem b) m =? 0) then dim_code (node_mem b) m
-      else if negb (pub_code (node_cpu b) pc =? 0) then pub_code (node_cpu b) pc
-      else if negb (pub_code (node_mem b) pm =? 0) then pub_code (node_mem b) pm
+Fixpoint eq_listZ (a b : list Z) : bool :=
+  match a, b with
+  | [], [] => true
+  | x :: a', y :: b' => (x =? y) && eq_listZ a' b'
+  | _, _ => false
+  end.
+Definition withdrawn : list Z := [1; -1; -1].
+
+Definition batch_code (strict : bool) (b : binput) (obs : list Z) : Z :=
+  if eq_listZ obs withdrawn then 0                  (* withdrawn: always safe *)
+  else match obs with
+  | h :: pc :: pm :: c :: m :: nz :: zobs =>
+      if negb (h =? 0) then 9
+      else if stale b then 10                      (* stale metrics must withdraw the resource *)
+      else if negb (dim_code strict (node_cpu b) c =? 0) then dim_code strict (node_cpu b) c
+      else if negb (dim_code strict (node_mem b) m =? 0) then dim_code strict (node_mem b) m
+      else if negb (pub_code strict (node_cpu b) pc =? 0) then pub_code strict (node_cpu b) pc
+      else if negb (pub_code strict (node_mem b) pm =? 0) then pub_code strict (node_mem b) pm
       else if nz =? 0 then (match zobs with [] => 0 | _ => 9 end)   (* zones not published: safe *)
       else if negb (nz =? Z.of_nat (length (b_zones b))) then 9
-      else zones_code b (length (b_zones b)) 0 (b_zones b) zobs
+      else zones_code strict b (length (b_zones b)) 0 (b_zones b) zobs
   | _ => 9
   end.
 
+(* the hard clauses first; the property-text clause only when they all hold, so that the known
+   deviation never hides another violation *)
+Definition prop_code (b : binput) (obs : list Z) : Z :=
+  let c := batch_code false b obs in if c =? 0 then batch_code true b obs else c.
+
 (* the same as a Prop *)
-Fixpoint zones_ok (b : binput) (n i : nat) (zs : list (Z * Z)) (obs : list Z) : Prop :=
+Fixpoint zones_spec (strict : bool) (b : binput) (n i : nat) (zs : list (Z * Z)) (obs : list Z) : Prop :=
   match zs, obs with
   | [], [] => True
   | z :: t, c :: m :: obs' =>
-      dim_ok (zone_cpu b n i z) c /\ dim_text_ok (zone_cpu b n i z) c /\
-      dim_ok (zone_mem b n i z) m /\ dim_text_ok (zone_mem b n i z) m /\
-      zones_ok b n (S i) t obs'
+      dim_spec strict (zone_cpu b n i z) c /\ dim_spec strict (zone_mem b n i z) m /\
+      zones_spec strict b n (S i) t obs'
   | _, _ => False
   end.
-Definition pub_ok (d : dim_in) (x : Z) : Prop := x = -1 \/ (dim_ok d x /\ dim_text_ok d x).
+Definition pub_spec (strict : bool) (d : dim_in) (x : Z) : Prop := x = -1 \/ dim_spec strict d x.
 
-Definition batch_holds (b : binput) (obs : list Z) : Prop :=
-  obs = [1; -1; -1] \/
+Definition batch_spec (strict : bool) (b : binput) (obs : list Z) : Prop :=
+  obs = withdrawn \/
   exists pc pm c m nz zobs, obs = 0 :: pc :: pm :: c :: m :: nz :: zobs /\
     stale b = false /\
-    dim_ok (node_cpu b) c /\ dim_text_ok (node_cpu b) c /\
-    dim_ok (node_mem b) m /\ dim_text_ok (node_mem b) m /\
-    pub_ok (node_cpu b) pc /\ pub_ok (node_mem b) pm /\
+    dim_spec strict (node_cpu b) c /\ dim_spec strict (node_mem b) m /\
+    pub_spec strict (node_cpu b) pc /\ pub_spec strict (node_mem b) pm /\
     ((nz = 0 /\ zobs = []) \/
-     (nz = Z.of_nat (length (b_zones b)) /\ zones_ok b (length (b_zones b)) 0 (b_zones b) zobs)).
+     (nz = Z.of_nat (length (b_zones b)) /\
+      zones_spec strict b (length (b_zones b)) 0 (b_zones b) zobs)).
+(* C09 as implemented (request policy charges the reservation, not system usage) *)
+Definition C09_holds (b : binput) (obs : list Z) : Prop := batch_spec false b obs.
+(* C09 by the letter of the property text *)
+Definition C09_text_holds (b : binput) (obs : list Z) : Prop := batch_spec true b obs.
 
 (* ---------- "raising a consumption input" ---------- *)
 Definition pod_leb (p q : pod) : bool :=
